@@ -76,7 +76,8 @@ def run(ctx, eng):
     for q in sorted(reach):
         for op in D.ops.get(q, ()):
             n_ops += 1
-            nid = id(op.node)
+            nid = (id(op.node), op.exc) if op.kind == 'call' \
+                else id(op.node)
             if nid in D.reasons:
                 n_dis += 1
                 ctx.ob('ESC.op', q, '%s %s' % (op.exc, _norm(op.desc)), True,
